@@ -527,6 +527,54 @@ fn query_all(gs: &GameState) -> u64 {
     f.finish()
 }
 
+/// A file on which the side to move has a non-rabbit piece three ranks away from a weaker enemy
+/// piece with two empty squares between them (files c and f are left out because of the traps):
+/// two steps bring the pieces into contact and the third can start a push.
+fn contact_file(b: &Board, side: Side) -> Option<u8> {
+    let (r0, r1, mid) = if side == Side::Gold { (3u8, 6u8, [4u8, 5u8]) } else { (6u8, 3u8, [5u8, 4u8]) };
+    for f in [0u8, 1, 3, 4, 6, 7] {
+        if let (Some((s0, k0)), Some((s1, k1))) = (b[Sq::new(f, r0).0 as usize], b[Sq::new(f, r1).0 as usize]) {
+            if s0 == side && s1 != side && k0 != Kind::R && (k0 as u8) > (k1 as u8) && mid.iter().all(|r| b[Sq::new(f, *r).0 as usize].is_none()) {
+                // nobody else next to the two empty squares: no freezing, no captures on the way
+                let lonely = mid.iter().all(|r| Sq::new(f, *r).neighbours().all(|n| n.file() == f || b[n.0 as usize].is_none()));
+                if lonely {
+                    return Some(f);
+                }
+            }
+        }
+    }
+    None
+}
+
+/// Every state of the current turn reachable by actions on one file (own piece up twice, then
+/// whatever it can do there), each queried completely: this is where mid-turn states with a push
+/// pending at the last step of a turn come from.  Returns how many such states were queried.
+fn contact_probe(gs: &GameState, file: u8) -> u64 {
+    let letter = (b'a' + file) as char;
+    let side = gs.is_p1_turn_to_move();
+    let mut pending_push_states = 0;
+    let mut stack = vec![gs.clone()];
+    while let Some(st) = stack.pop() {
+        for a in st.valid_actions() {
+            if !a.to_string().starts_with(letter) {
+                continue;
+            }
+            let child = st.take_action(&a);
+            if child.is_p1_turn_to_move() != side || child.current_step() == 0 {
+                continue;
+            }
+            let _ = query_all(&child);
+            if matches!(eng_pending(&child), Ok(Pending::Push(..))) {
+                pending_push_states += 1;
+            }
+            if child.current_step() < 3 {
+                stack.push(child);
+            }
+        }
+    }
+    pending_push_states
+}
+
 /// what the child does on its bounded-stack thread
 fn child_body(n: u64, seed: u64) -> Result<String, String> {
     let mut g = LongGame::new(seed)?;
@@ -538,10 +586,19 @@ fn child_body(n: u64, seed: u64) -> Result<String, String> {
             mid = Some(g.gs.clone());
         }
     }
+    // go on until the armies can touch within one turn (a few hundred turns at most, usually)
+    let mut file = contact_file(&g.m.board, g.m.side);
+    let mut extra = 0;
+    while file.is_none() && extra < 6000 {
+        g.turn(false)?;
+        extra += 1;
+        file = contact_file(&g.m.board, g.m.side);
+    }
     let decoded = decode_board(g.gs.piece_board())?;
     if decoded != g.m.board {
         return Err("board mismatch at the end of the long game".into());
     }
+    let pending_push_states = file.map_or(0, |f| contact_probe(&g.gs, f));
     let hist = g.gs.unwrap_play_phase().hash_history().len();
     let d0 = query_all(&g.gs);
     let c = g.gs.clone();
@@ -606,7 +663,7 @@ fn child_body(n: u64, seed: u64) -> Result<String, String> {
             drop(c);
         }
     }
-    Ok(format!("turns={} history_len={} digest={:016x}", n, hist, d0))
+    Ok(format!("turns={} history_len={} digest={:016x} extra_turns_to_contact={} mid_turn_states_with_a_push_pending_queried={}", n, hist, d0, extra, pending_push_states))
 }
 
 pub fn cmd_child(n: u64, stack: usize, seed: u64) -> i32 {
@@ -685,7 +742,16 @@ fn cmd_children(tier: &str, seed: u64, out: &str, replay_dir: &str) -> i32 {
         plan.push((1_000_000, 2 << 20));
         plan.push((600_000, 8 << 20));
     }
-    let extra = if thorough { 40 } else { 7 };
+    // the unoptimised build (recursion that an optimiser turns into a loop is still recursion
+    // for everybody who builds without optimisation): few and shorter games, it is slow
+    let unopt = std::env::var("VERIF_BUILD").as_deref() == Ok("slow");
+    if unopt {
+        plan = vec![(100, 256 << 10), (3_000, 256 << 10), (20_000, 256 << 10), (40_000, 1 << 20)];
+        if thorough {
+            plan.push((100_000, 1 << 20));
+        }
+    }
+    let extra = if unopt { 0 } else if thorough { 40 } else { 7 };
     for _ in 0..extra {
         let n = match rng.below(5) {
             0 => 100 + rng.below(900) as u64,
@@ -728,7 +794,7 @@ fn cmd_children(tier: &str, seed: u64, out: &str, replay_dir: &str) -> i32 {
                     // report the smallest crashing history
                     let worst = results.iter().filter(|x| matches!(x.3, ChildResult::Crashed(_))).min_by_key(|x| x.0).unwrap();
                     let path = format!("{}/C20-{}-{}.json", replay_dir, seed, worst.0);
-                    let v = json!({"mode": "stack", "property": "C20", "monitor": "stack.child_exit_status", "detail": d, "turns": worst.0, "stack_bytes": worst.1, "child_seed": worst.2, "seed": seed, "repo_src_hash": repo_hash(), "how_to_replay": "cd /verif && ./run replay <this file>"});
+                    let v = json!({"mode": "stack", "build": if unopt { "slow" } else { "plain" }, "property": "C20", "monitor": "stack.child_exit_status", "detail": d, "turns": worst.0, "stack_bytes": worst.1, "child_seed": worst.2, "seed": seed, "repo_src_hash": repo_hash(), "how_to_replay": "cd /verif && ./run replay <this file>"});
                     if (ReplayFile { v }).write(&path).is_err() {
                         return 2;
                     }
@@ -741,10 +807,10 @@ fn cmd_children(tier: &str, seed: u64, out: &str, replay_dir: &str) -> i32 {
     }
     let wall = t0.elapsed().as_secs_f64();
     let part = json!({
-        "part": "bounded_stack_children",
+        "part": if unopt { "bounded_stack_children_unoptimised_build" } else { "bounded_stack_children" },
         "evaluations": results.len(),
         "distinct_nontrivial": distinct.len(),
-        "rule": "each case = one child process that plays N legal capture-free turns (generated by the reference model, cross-checked against valid_actions() at 40 points), then on a thread with stack S: queries everything public (both lists, result, can_pass, has_move, hash, Display, ==, Hash, boards of steps, capture preview, the history list's iter/len/head/tail/append), holds a search frontier of up to 600 states of the current turn plus 200 clones plus a boxed Option, releases them in bulk, and drops the state, an older branch and a clone in a seed-chosen order; non-trivial = distinct (N >= 1000, S) pairs that completed",
+        "rule": "each case = one child process that plays N legal capture-free turns (generated by the reference model, cross-checked against valid_actions() at 40 points), then on a thread with stack S: queries everything public (both lists, result, can_pass, has_move, hash, Display, ==, Hash, boards of steps, capture preview, the history list's iter/len/head/tail/append), plays on until the armies can touch within one turn and queries every mid-turn state on the contact file (states with a push pending at the last step among them), holds a search frontier of up to 600 states of the current turn plus 200 clones plus a boxed Option, releases them in bulk, and drops the state, an older branch and a clone in a seed-chosen order; non-trivial = distinct (N >= 1000, S) pairs that completed",
         "samples": samples,
         "faults_injected_and_effective": {"fault.bounded_stack": results.len(), "fault.release_order_variants": 4},
         "simulated_turns": total_turns,
@@ -755,7 +821,7 @@ fn cmd_children(tier: &str, seed: u64, out: &str, replay_dir: &str) -> i32 {
     if std::fs::write(out, serde_json::to_string_pretty(&part).unwrap()).is_err() {
         return 2;
     }
-    println!("C20 child part: {} children, {} turns in total, {:.1}s", results.len(), total_turns, wall);
+    println!("C20 child part{}: {} children, {} turns in total, {:.1}s", if unopt { " (unoptimised build)" } else { "" }, results.len(), total_turns, wall);
     exit
 }
 
